@@ -10,7 +10,10 @@ package c09
 // this pass runs serially and BEFORE the parallel in-process workers start (phase 1 of TestCheck).
 
 import (
+	"net"
+
 	"fmt"
+	"github.com/codelaboratoryltd/bng/pkg/pppoe"
 	"os"
 	"strings"
 	"sync/atomic"
@@ -150,66 +153,192 @@ func (e *engine) decideBlocked(t *target, in []byte) {
 	e.run.HarnessError(fmt.Sprintf("%s: a call stayed blocked for 2 x %v but Engine B finds no deadlock for the same input; not decided (input %x)", t.name, hangCap, in))
 }
 
-// ---------------------------------------------------------------- restart timer expiring WHILE a handler runs
+// ---------------------------------------------------------------- packet handler || periodic actor
 //
-// Two logical threads per scenario: the packet handler and a clock thread that advances virtual time past the
-// restart timer, which makes the timer callback a third thread ("fired, not yet run": Timer.Stop() reports false).
-// Engine B enumerates every interleaving up to the preemption bound. The exploration itself runs inside a synctest
-// bubble so that a thread blocking on a raw channel operation (not a scheduling point) is still found
-// deterministically: every goroutine of the bubble is then durably blocked and the runtime reports the deadlock.
-func (e *engine) timerRacePass() {
+// Every scenario has a packet-handler thread and a second thread that performs ONE tick of a periodic actor that
+// runs against the same object while packets arrive (restart timer via a clock thread, session keep-alive check,
+// keep-alive manager sweep, PPPoE session cleanup sweep, DHCP lease cleanup). Engine B enumerates every interleaving
+// up to the preemption bound; "no enabled thread while threads remain" = deadlock. The exploration runs inside a
+// synctest bubble so that a thread blocked on a raw channel operation (not a scheduling point) is still found
+// deterministically by the runtime.
+
+type raceFamily struct {
+	name  string // "<handler>[<pre-state>] || <actor>"
+	entry string
+	seeds []seed
+	// build constructs the pre-state (called inside x.Sequential) and returns the two thread bodies; extra (may be
+	// nil) registers further threads (e.g. a clock)
+	build func(x *sched.Exec, pkt []byte) (handler func(), actor func())
+	actor string // name of the second thread
+}
+
+func (e *engine) racePass(fams []raceFamily) {
 	bound := 1
 	if e.thorough {
 		bound = 2
 	}
-	seeds := map[string][]seed{"LCP": lcpSeeds(), "IPCP": ipcpSeeds(), "IPV6CP": ipv6cpSeeds()}
-	for _, proto := range []string{"LCP", "IPCP", "IPV6CP"} {
-		for _, st := range timerStates {
-			t := &target{name: fmt.Sprintf("pppoe.%s.ReceivePacket[%s] || restart timer expiry {Engine B, 2 threads + timer}", proto, st), entry: "pppoe." + proto + "StateMachine (handler vs restart timer)"}
-			if !e.run.WantPart(t.name) {
-				continue
-			}
-			t0 := time.Now()
-			var execs int64
-			exhaustive := true
-			for _, sd := range seeds[proto] {
-				pkt := sd.data
-				sc := &sched.Scenario{Horizon: 1 << 16, Setup: func(x *sched.Exec) {
-					var m cpMachine
-					x.Sequential(func() { m = bubbleMachine(proto, st) })
-					x.Thread("handler", func() { m.ReceivePacket(append([]byte(nil), pkt...)) })
-					x.Thread("clock", func() { x.Advance(3*time.Second + time.Millisecond) })
-				}}
-				var res *sched.Result
-				dead := inBubble(func() { res = (&sched.Explorer{Bound: bound, MaxExec: 20000}).Explore(sc) })
-				if dead != nil {
-					e.record("hang", t, pkt, dead.site, dead.msg+" [handler || clock || timer threads under Engine B]", dead.stack)
-					// the controlled execution can not be unwound: nothing else may run in this process
-					atomic.StoreInt32(&e.aborted, 1)
-					e.run.AddPart(report.Part{Name: t.name, Engine: "B", Bound: fmt.Sprintf("preemption bound %d", bound), Executions: execs, Exhaustive: false, Note: "deadlock found; run ends here"})
-					return
-				}
-				execs += res.Executions
-				exhaustive = exhaustive && res.Exhaustive
-				for _, f := range res.Failures {
-					for _, v := range f.Viols {
-						switch v.Kind {
-						case "panic":
-							site, msg := siteFromStderr(v.Detail)
-							e.record("panic", t, pkt, site, msg, v.Detail)
-						case "deadlock":
-							e.record("hang", t, pkt, "pppoe."+proto+" automaton lock: no enabled thread", v.Detail, strings.Join(f.Schedule, " "))
-						default:
-							e.run.HarnessError(t.name + ": " + v.Kind + ": " + v.Detail)
+	for _, f := range fams {
+		f := f
+		t := &target{name: f.name + " {Engine B, 2 threads}", entry: f.entry}
+		if !e.run.WantPart(t.name) {
+			continue
+		}
+		if atomic.LoadInt32(&e.aborted) != 0 {
+			return
+		}
+		t0 := time.Now()
+		var execs int64
+		exhaustive := true
+		for _, sd := range f.seeds {
+			pkt := sd.data
+			parked := map[string]*panicInfo{}
+			wrap := func(name string, body func()) func() {
+				return func() {
+					defer func() {
+						if r := recover(); r != nil {
+							if strings.HasSuffix(fmt.Sprintf("%T", r), "sched.abortT") {
+								parked[name] = capturePanic(r)
+							}
+							panic(r)
 						}
+					}()
+					body()
+				}
+			}
+			sc := &sched.Scenario{Horizon: 1 << 16, Setup: func(x *sched.Exec) {
+				for k := range parked {
+					delete(parked, k)
+				}
+				var h, a func()
+				x.Sequential(func() { h, a = f.build(x, append([]byte(nil), pkt...)) })
+				x.Thread("handler", wrap("handler", h))
+				x.Thread(f.actor, wrap(f.actor, a))
+			}}
+			var res *sched.Result
+			dead := inBubble(func() { res = (&sched.Explorer{Bound: bound, MaxExec: 50000}).Explore(sc) })
+			if dead != nil {
+				e.record("hang", t, pkt, dead.site, dead.msg+" [handler || "+f.actor+" threads under Engine B]", dead.stack)
+				// the controlled execution can not be unwound: nothing else may run in this process
+				atomic.StoreInt32(&e.aborted, 1)
+				e.run.AddPart(report.Part{Name: t.name, Engine: "B", Bound: fmt.Sprintf("preemption bound %d", bound), Executions: execs, Exhaustive: false, Note: "deadlock found; run ends here"})
+				return
+			}
+			execs += res.Executions
+			exhaustive = exhaustive && res.Exhaustive
+			for _, fl := range res.Failures {
+				for _, v := range fl.Viols {
+					switch v.Kind {
+					case "panic":
+						site, msg := siteFromStderr(v.Detail)
+						e.record("panic", t, pkt, site, msg, v.Detail)
+					case "deadlock":
+						site, stack := "no enabled thread", strings.Join(fl.Schedule, " ")
+						var ps []string
+						for _, n := range []string{"handler", f.actor} {
+							if p := parked[n]; p != nil {
+								ps = append(ps, n+" parked at "+p.site)
+								stack += "\n--- " + n + "\n" + p.stack
+							}
+						}
+						if len(ps) > 0 {
+							site = strings.Join(ps, " / ")
+						}
+						e.record("hang", t, pkt, site, "Engine B: deadlock - no enabled thread while threads remain unfinished; schedule "+strings.Join(fl.Schedule, ","), stack)
+					default:
+						e.run.HarnessError(t.name + ": " + v.Kind + ": " + v.Detail)
 					}
 				}
 			}
-			e.run.AddPart(report.Part{Name: t.name, Engine: "B", Bound: fmt.Sprintf("%d seed packets, preemption bound %d", len(seeds[proto]), bound), Executions: execs, Exhaustive: exhaustive,
-				Note: fmt.Sprintf("%.1fs", time.Since(t0).Seconds())})
-			if os.Getenv("C09_VERBOSE") != "" {
-				fmt.Printf("  race %-70s executions=%-6d %.1fs\n", t.name, execs, time.Since(t0).Seconds())
-			}
+		}
+		e.run.AddPart(report.Part{Name: t.name, Engine: "B", Bound: fmt.Sprintf("%d seed packets, every interleaving up to preemption bound %d", len(f.seeds), bound), Executions: execs, Exhaustive: exhaustive,
+			Note: fmt.Sprintf("%.1fs", time.Since(t0).Seconds())})
+		if os.Getenv("C09_VERBOSE") != "" {
+			fmt.Printf("  race %-80s executions=%-6d %.1fs\n", t.name, execs, time.Since(t0).Seconds())
 		}
 	}
+}
+
+func raceFamilies() []raceFamily {
+	var fs []raceFamily
+	// ---- restart timer of the three automata: clock thread advances past the timer, the fired timer is a third thread
+	cpSeeds := map[string][]seed{"LCP": lcpSeeds(), "IPCP": ipcpSeeds(), "IPV6CP": ipv6cpSeeds()}
+	for _, proto := range []string{"LCP", "IPCP", "IPV6CP"} {
+		for _, st := range timerStates {
+			proto, st := proto, st
+			fs = append(fs, raceFamily{name: fmt.Sprintf("pppoe.%s.ReceivePacket[%s] || restart timer expiry", proto, st), entry: "pppoe." + proto + "StateMachine (handler vs restart timer)", seeds: cpSeeds[proto], actor: "clock",
+				build: func(x *sched.Exec, pkt []byte) (func(), func()) {
+					m := bubbleMachine(proto, st)
+					return func() { m.ReceivePacket(pkt) }, func() { x.Advance(3*time.Second + time.Millisecond) }
+				}})
+		}
+	}
+	// ---- session keep-alive ticker (SessionKeepAlive.check) against the LCP automaton in each state
+	kaCfg := pppoe.KeepAliveConfig{Enabled: true, Interval: 30 * time.Second, Timeout: 5 * time.Second, MaxFailures: 3, IdleThreshold: 0}
+	for _, st := range cpStates {
+		for _, pending := range []bool{false, true} {
+			if pending && st != "Opened" {
+				continue
+			}
+			st, pending := st, pending
+			fs = append(fs, raceFamily{name: fmt.Sprintf("pppoe.LCP.ReceivePacket[%s,keep-alive attached,echo pending=%v] || SessionKeepAlive tick", st, pending), entry: "pppoe.LCPStateMachine (handler vs session keep-alive)", seeds: lcpSeeds(), actor: "keepalive",
+				build: func(x *sched.Exec, pkt []byte) (func(), func()) {
+					m := bubbleMachine("LCP", st).(*pppoe.LCPStateMachine)
+					sess, _ := pppoe.NewSession(1, clientMAC, serverMAC)
+					ka := pppoe.NewSessionKeepAlive(sess, m, kaCfg, nop)
+					if pending {
+						ka.VerifC09SetPendingEcho(1)
+					}
+					return func() { m.ReceivePacket(pkt) }, func() { ka.VerifC09Check() }
+				}})
+		}
+	}
+	// ---- keep-alive manager sweep against the echo-reply path
+	for _, pending := range []bool{false, true} {
+		pending := pending
+		fs = append(fs, raceFamily{name: fmt.Sprintf("pppoe.KeepAlive.echoReply[pending=%v] || KeepAliveManager sweep", pending), entry: "pppoe.KeepAliveManager (echo reply vs sweep)", seeds: lcpSeeds()[10:13], actor: "sweep",
+			build: func(x *sched.Exec, pkt []byte) (func(), func()) {
+				sess, _ := pppoe.NewSession(1, clientMAC, serverMAC)
+				km := pppoe.NewKeepAliveManager(kaCfg, nop)
+				km.SetSendEcho(func(*pppoe.Session) uint8 { return 1 })
+				km.RegisterSession(sess)
+				if pending {
+					km.VerifC09SetPendingEcho(1, 1)
+				}
+				return func() {
+					p, err := pppoe.ParseLCPPacket(pkt)
+					if err != nil {
+						return
+					}
+					magic, _, _ := pppoe.ParseEchoPacket(p.Data)
+					km.UpdateActivity(1)
+					km.ReceiveEchoReply(1, p.Identifier, magic)
+					km.GetSessionHealth(1)
+				}, func() { km.VerifC09CheckAll() }
+			}})
+	}
+	// ---- PPPoE server: idle/cleanup sweep removing the session while one of its frames is handled
+	for _, st := range sessionStates {
+		st := st
+		fs = append(fs, raceFamily{name: fmt.Sprintf("pppoe.Server.handleSession[%s] || session cleanup sweep", st), entry: "pppoe.Server (handleSession vs cleanup sweep)", seeds: sessionSeeds(), actor: "sweep",
+			build: func(x *sched.Exec, pkt []byte) (func(), func()) {
+				srv, _ := newPPPoEServer("pap", st, true)
+				return func() { srv.VerifC09Session(clientMAC, pkt) }, func() { srv.VerifC09CleanupTick(-time.Second) }
+			}})
+		fs = append(fs, raceFamily{name: fmt.Sprintf("pppoe.Server.handleDiscovery[%s] || session cleanup sweep", st), entry: "pppoe.Server (handleDiscovery vs cleanup sweep)", seeds: discoverySeeds(), actor: "sweep",
+			build: func(x *sched.Exec, pkt []byte) (func(), func()) {
+				srv, _ := newPPPoEServer("pap", st, true)
+				return func() { srv.VerifC09Discovery(clientMAC, pkt) }, func() { srv.VerifC09CleanupTick(-time.Second) }
+			}})
+	}
+	// ---- DHCPv4: lease cleanup tick expiring the client's lease while its packet is handled
+	peer4 := &net.UDPAddr{IP: net.IPv4(10, 0, 1, 50), Port: 68}
+	for _, c := range []dhcpCfg{{expired: true, prestate: "leased"}, {expired: true, prestate: "leased82", loader: true}, {expired: true, prestate: "leased", mgrs: true}} {
+		c := c
+		fs = append(fs, raceFamily{name: fmt.Sprintf("dhcp.Server.handleDHCP[%s,lease expired,loader=%v,qos+nat=%v] || lease cleanup tick", c.prestate, c.loader, c.mgrs), entry: "dhcp.Server (handleDHCP vs lease cleanup)", seeds: dhcp4Seeds(), actor: "cleanup",
+			build: func(x *sched.Exec, pkt []byte) (func(), func()) {
+				s, fc := newDHCP(c)
+				return func() { s.VerifC09Handle(fc, peer4, pkt) }, func() { s.VerifC09CleanupExpired() }
+			}})
+	}
+	return fs
 }
